@@ -190,12 +190,17 @@ func bubbleCensus() []string {
 	buf := make([]byte, 1<<20)
 	buf = buf[:runtime.Stack(buf, true)]
 	var out []string
+	var mine []byte // "synctest bubble N" of the caller: goroutines abandoned by earlier bubbles are not ours
 	for i, g := range bytes.Split(buf, []byte("\n\n")) {
+		hdr, _, _ := bytes.Cut(g, []byte("\n"))
 		if i == 0 {
+			if j := bytes.Index(hdr, []byte("synctest bubble")); j >= 0 {
+				mine = bytes.TrimRight(hdr[j:], "]:")
+			}
+
 			continue // the calling goroutine
 		}
-		hdr, _, _ := bytes.Cut(g, []byte("\n"))
-		if !bytes.Contains(hdr, []byte("synctest bubble")) {
+		if mine == nil || !bytes.Contains(hdr, mine) || !bytes.HasSuffix(bytes.TrimRight(hdr, ":"), append(append([]byte{}, mine...), ']')) {
 			continue
 		}
 		var frames []string
@@ -212,6 +217,9 @@ func bubbleCensus() []string {
 		}
 		if len(frames) > 3 {
 			frames = frames[:3]
+		}
+		if os.Getenv("VERIF_CENSUS_DUMP") != "" {
+			fmt.Fprintf(os.Stderr, "CENSUS:\n%s\n\n", g)
 		}
 		state := string(hdr)
 		if a, b := strings.Index(state, "["), strings.Index(state, "]"); a >= 0 && b > a {
